@@ -288,6 +288,11 @@ def make_strategy(script, observer=None, name='S'):
                     self._declare_exit('stop_loss', abs(self.position.qty), self.price - sign * e['sl'], e.get('inplace'))
                 if e.get('tp') is not None:
                     self._declare_exit('take_profit', abs(self.position.qty), self.price + sign * e['tp'], e.get('inplace'))
+            # withdrawing an exit: an empty declaration (its resting orders must go)
+            if script.get('withdraw_tp_at') is not None and self.index == script['withdraw_tp_at']:
+                self.take_profit = []
+            if script.get('withdraw_sl_at') is not None and self.index == script['withdraw_sl_at']:
+                self.stop_loss = []
             if script.get('liquidate_at') is not None and self.index == script['liquidate_at']:
                 self.liquidate()
             self._obs('update_position')
@@ -382,6 +387,8 @@ def gen_script(rng, spot=False, step=0.125, rich=True, tight=False, force=None):
         s['on_reduced'] = {'sl': 0.0 if rng.random() < 0.5 else off(1, 3)}
     if rich and rng.random() < 0.2:
         s['liquidate_at'] = rng.randint(3, 40)
+    if rich and style != 'none' and rng.random() < 0.25:
+        s[rng.choice(['withdraw_tp_at', 'withdraw_sl_at'])] = rng.randint(1, 30)
     return s
 
 
